@@ -32,6 +32,7 @@ type paQuery struct {
 	T1    string `json:"t1"`
 	T2    string `json:"t2"`
 	Pos   string `json:"pos"`
+	Wide  string `json:"wide"` // w0: "select *"; w1/w2/w3: a projection of 1.5 KiB / 6 KiB / 80 KiB of non-blank text before FROM
 }
 
 type paSched struct {
@@ -45,12 +46,34 @@ var paAcls = map[string]config.ProxyACLConfig{
 	"deny":  {Deny: []string{"td"}},
 	"both":  {Allow: []string{"ta", "td"}, Deny: []string{"td"}},
 	"open":  {},
+	"stardeny": {Allow: []string{"*"}, Deny: []string{"td"}},
 }
+
+// paWide: width and fill letter of the projection alias per class (different letters: different classes never share a prefix)
+var paWide = map[string]struct {
+	n    int
+	fill string
+}{"w1": {1500, "a"}, "w2": {6000, "b"}, "w3": {80000, "c"}}
 
 const paCut = 512 // trimQuery's truncation point
 
 // paRender returns the SQL text of an abstract query and the topics it reads, known by construction.
 func paRender(q paQuery) (string, []string) {
+	if w, ok := paWide[q.Wide]; ok { // wide statements: identical up to the end of the projection, topics only afterwards
+		head := "select _offset as " + strings.Repeat(w.fill, w.n) + " from " + q.T1
+		switch {
+		case q.Shape == "select":
+			return head, []string{q.T1}
+		case q.Shape == "join" && q.Pos == "near":
+			topics := []string{q.T1}
+			if q.T2 != q.T1 {
+				topics = append(topics, q.T2)
+			}
+			sort.Strings(topics)
+			return head + " join " + q.T2, topics
+		}
+		return "", nil
+	}
 	switch q.Shape {
 	case "select":
 		return "select * from " + q.T1, []string{q.T1}
@@ -259,7 +282,7 @@ func TestVerifProxyAuthReplay(t *testing.T) {
 			up.mu.Lock()
 			got := append([]string{}, up.seen[before:]...)
 			up.mu.Unlock()
-			ev := map[string]any{"ev": "Query", "i": i + 1, "shape": q.Shape, "t1": q.T1, "t2": q.T2, "pos": q.Pos,
+			ev := map[string]any{"ev": "Query", "i": i + 1, "shape": q.Shape, "t1": q.T1, "t2": q.T2, "pos": q.Pos, "wide": q.Wide,
 				"len": len(text), "fwd": len(got) > 0, "same": true, "topics": []string{}, "err": emsg}
 			if len(got) > 1 {
 				t.Fatalf("schedule %d query %d: upstream received %d messages for one query", n, i, len(got))
